@@ -202,7 +202,11 @@ Definition c05_step (g : config) (s : ost) (o : op) (x : obs) : sv :=
   | OEncode h id a ls buf, XEnc (Some n) out =>
       match spec_message h id a ls (snd (os_eids s)) with
       | Some (mt, _) =>
-          sv_of (list_eqb (sub out 4 5) [1; enc_dest h id a; g_addr g; 200; mt] && (mt <? 128)) id
+          (* version 1 / reserved 0; destination EID; source EID = own address; SOM 1, EOM 1, sequence 0 — and, except
+             for control responses, tag owner 1 with tag 0; IC 0 + message type *)
+          sv_of (list_eqb (sub out 4 3) [1; enc_dest h id a; g_addr g]
+                 && (if negb h && (id <=? 6) then nth 7 out 0 / 16 =? 12 else nth 7 out 0 =? 200)
+                 && (nth 8 out 0 =? mt) && (mt <? 128)) id
       | None => sv_triv            (* documented-invalid arguments: C16's business *)
       end
   | OHdr 10 addr _ dst, XBytes hb =>
@@ -564,6 +568,12 @@ Definition enc_vendor_set (v : vendor_id) : list N :=
   else [1; (v_data v / 16777216) mod 256; (v_data v / 65536) mod 256; (v_data v / 256) mod 256; v_data v mod 256;
         (v_numeric v / 256) mod 256; v_numeric v mod 256].
 
+(* framing, byte count, transport header of a response of n bytes from addr back to requester: SOM 1, EOM 1, sequence 0
+   (tag owner / tag of a response are not pinned by the property), control message type *)
+Definition resp_head_ok (r : list N) (requester addr : N) (n : nat) : bool :=
+  list_eqb (firstn 7 r) [(requester mod 128) * 2; 15; N.of_nat (n - 4); (addr mod 128) * 2 + 1; 1; requester; addr]
+  && (nth 7 r 0 / 16 =? 12) && (nth 8 r 0 =? 0).
+
 (* C12: the response is a well-formed packet travelling back to the requester, same command, same instance *)
 Definition c12_step (g : config) (o : op) (x : obs) : sv :=
   match o with
@@ -577,8 +587,7 @@ Definition c12_step (g : config) (o : op) (x : obs) : sv :=
             let requester := nth 6 p 0 in
             let others :=
                 (13 <=? n)%nat && (n <=? length b)%nat &&
-                list_eqb (firstn 9 r) [(requester mod 128) * 2; 15; N.of_nat (n - 4); (g_addr g mod 128) * 2 + 1;
-                                       1; requester; g_addr g; 200; 0]
+                resp_head_ok r requester (g_addr g) n
                 && pec_ok n b
                 && (nth 9 r 0 <? 32)                     (* Rq 0, D 0, rsvd 0 *)
                 && (nth 10 r 0 =? ctl_cmd p)
